@@ -1,5 +1,8 @@
-//! One SplitMix64 stream for every random choice; boundary-biased scalars.
+//! One SplitMix64 stream per case for every random choice; boundary-biased scalars.
+//! The stream of a case is a pure function of (seed, group, index), so any case can be regenerated alone
+//! and index ranges can be sharded over processes.
 pub struct Rng(pub u64);
+
 impl Rng {
     pub fn next(&mut self) -> u64 {
         self.0 = self.0.wrapping_add(0x9E3779B97F4A7C15);
@@ -8,19 +11,69 @@ impl Rng {
         z = (z ^ (z >> 27)).wrapping_mul(0x94D049BB133111EB);
         z ^ (z >> 31)
     }
-    pub fn below(&mut self, n: u64) -> u64 { if n == 0 { 0 } else { self.next() % n } }
-    pub fn flip(&mut self) -> bool { self.next() & 1 == 1 }
+    pub fn below(&mut self, n: u64) -> u64 {
+        if n == 0 {
+            0
+        } else {
+            self.next() % n
+        }
+    }
+    pub fn flip(&mut self) -> bool {
+        self.next() & 1 == 1
+    }
     pub fn byte(&mut self) -> u8 {
-        match self.below(10) { 0 => 0, 1 => 1, 2 => 0xff, 3 => 0x80, 4 => 0x7f, 5 => 0xfe, _ => self.next() as u8 }
+        match self.below(10) {
+            0 => 0,
+            1 => 1,
+            2 => 0xff,
+            3 => 0x80,
+            4 => 0x7f,
+            5 => 0xfe,
+            _ => self.next() as u8,
+        }
     }
     pub fn u16(&mut self) -> u16 {
         const B: [u16; 12] = [0, 1, 0xff, 0x100, 0x555, 0xfff, 0x1000, 0x7fff, 0x8000, 0xfffe, 0xffff, 0x0800];
-        match self.below(3) { 0 => B[self.below(12) as usize], 1 => 1 << self.below(16), _ => self.next() as u16 }
+        match self.below(3) {
+            0 => B[self.below(12) as usize],
+            1 => 1 << self.below(16),
+            _ => self.next() as u16,
+        }
     }
     pub fn u32(&mut self) -> u32 {
-        match self.below(4) { 0 => 0, 1 => u32::MAX, 2 => 1 << self.below(32), _ => self.next() as u32 }
+        match self.below(4) {
+            0 => 0,
+            1 => u32::MAX,
+            2 => 1 << self.below(32),
+            _ => self.next() as u32,
+        }
     }
-    pub fn bytes(&mut self, n: usize) -> Vec<u8> { (0..n).map(|_| self.byte()).collect() }
+    pub fn bytes(&mut self, n: usize) -> Vec<u8> {
+        (0..n).map(|_| self.byte()).collect()
+    }
+    pub fn pick<'a, T>(&mut self, xs: &'a [T]) -> &'a T {
+        &xs[self.below(xs.len() as u64) as usize]
+    }
 }
+
 /// payload `g<seed>x<len>`: the same stream the Lean driver regenerates
-pub fn gen_bytes(seed: u64, len: usize) -> Vec<u8> { let mut r = Rng(seed); (0..len).map(|_| (r.next() % 256) as u8).collect() }
+pub fn gen_bytes(seed: u64, len: usize) -> Vec<u8> {
+    let mut r = Rng(seed);
+    (0..len).map(|_| (r.next() % 256) as u8).collect()
+}
+
+pub fn fnv(s: &str) -> u64 {
+    let mut h = 0xcbf29ce484222325u64;
+    for b in s.bytes() {
+        h = (h ^ b as u64).wrapping_mul(0x100000001b3);
+    }
+    h
+}
+
+/// generator state of case `idx` of `group` under `seed`
+pub fn case_rng(seed: u64, group: &str, idx: u64) -> Rng {
+    let mut r = Rng(seed ^ fnv(group).rotate_left(17) ^ idx.wrapping_mul(0xD6E8FEB86659FD93));
+    r.next();
+    r.next();
+    Rng(r.next())
+}
